@@ -578,6 +578,8 @@ class Interp:
                 return _PyCall(lambda it, v=None: dict.fromkeys(self.iterate(it), v))
             if isinstance(base, _EnumCls):
                 return f"{base.name}.{e.attr}"
+            if isinstance(base, _Cls) and e.attr == "__name__":
+                return base.name
             if isinstance(base, _Cls):
                 m = self.find_method(base.name, e.attr)
                 if m is not None:
